@@ -10,7 +10,8 @@ Require Import Fggs.Model.Semiring Fggs.Model.SCC Fggs.Model.SumProduct Fggs.Mod
 Require Import Fggs.Proofs.BigSum Fggs.Proofs.SP_trees Fggs.Proofs.SP_nonrec Fggs.Proofs.SP_driver
                Fggs.Proofs.SP_examples
                Fggs.Proofs.Dual_ring Fggs.Proofs.Dual_leibniz Fggs.Proofs.Dual_trees Fggs.Proofs.Dual_J
-               Fggs.Proofs.Dual_vjp Fggs.Proofs.Dual_encl Fggs.Proofs.Dual_examples.
+               Fggs.Proofs.Dual_vjp Fggs.Proofs.Dual_encl Fggs.Proofs.Dual_examples
+               Fggs.Proofs.SP_main Fggs.Proofs.Dual_back Fggs.Proofs.Dual_nonrec.
 
 (** * 1. The dual numbers *)
 Theorem C03_dual_is_semiring :
@@ -142,6 +143,24 @@ Theorem C03_scc_vjp_onestep :
            (fun xi => mul o (g X xi) (dstep o G (env_of o all) (delta_env o l yi) X xi)).
 Proof. exact (fun R o H => @vjp_onestep R o H). Qed.
 Print Assumptions C03_scc_vjp_onestep.
+
+(** reverse accumulation over the components of a non-recursive grammar (the composition of the
+    one-step backward passes that autograd performs) = the cotangent-weighted dual-number
+    derivative of the start symbol, for every terminal weight entry: factors shared between
+    rules, factors that cannot influence the start symbol (derivative zero), any start arity *)
+Theorem C03_nonrecursive_gradient :
+  forall R (o : sr_ops R), sr_ring o ->
+  forall G, wf_grammar G = true ->
+  forall (w : tmt (R:=R)), (forall l, tget w l <> None -> is_term G l = true) ->
+  forall ord, dep_ordered G [] ord -> NoDup ord -> (forall X, is_term G X = false -> In X ord) ->
+  forall (cot : list R) l0 i0,
+    is_term G l0 = true -> l0 < length (g_labels G) -> In i0 (all_assts (lshape G l0)) ->
+    length cot = length (all_assts (lshape G (g_start G))) ->
+    env_of o (backward_nonrec o G w (map (fun x => [x]) ord) cot) l0 i0
+    = sumS o (combine (all_assts (lshape G (g_start G))) cot)
+           (fun p => mul o (snd p) (grad_model o G (env_of o w) l0 i0 (length ord) (g_start G) (fst p))).
+Proof. exact (fun R o H G Hwf w Hk ord Hd Hn Hc => @nonrecursive_gradient R o H G Hwf w Hk ord Hd Hn Hc). Qed.
+Print Assumptions C03_nonrecursive_gradient.
 
 (** * 5. Derivation trees *)
 (** the epsilon part of the k-th dual iterate = sum over the derivation trees of depth <= k and
